@@ -122,6 +122,61 @@ class PandasSide(Side):
         return "pandas: " + self.src
 
 
+class PandasStepsSide(Side):
+    """the UNSIMPLIFIED meaning of a chain: each step is built on a fresh TableDescription of the previous step's materialised result and
+    evaluated on it (C06)."""
+
+    def __init__(self, base, steps, base_table):
+        self.base, self.steps, self.base_table = base, list(steps), base_table
+        self.name = "pandas step-by-step"
+
+    def prepare(self):
+        # build every step on a description of the previous result's columns (column bookkeeping only; rejects are the caller's business)
+        cols = list(build_ops(self.base).column_names)
+        self.step_ops = []
+        for i, s in enumerate(self.steps):
+            tn = self.base_table if i == 0 else f"step_{i}"
+            ops = build_ops(f"TableDescription(table_name={tn!r}, column_names={cols!r})" + s)
+            self.step_ops.append((tn, ops))
+            cols = list(ops.column_names)
+
+    def sym(self, tabs, nrows):
+        model = load.sym_pandas_model()
+        try:
+            frames = {t: rel.sym_frame(cols, nrows[t]) for t, cols in tabs.items()}
+            cur = None
+            for tn, ops in self.step_ops:
+                dm = dict(frames)
+                if cur is not None:
+                    dm[tn] = cur
+                with warnings.catch_warnings():
+                    warnings.simplefilter("ignore")
+                    cur = model.eval(ops, data_map=dm)
+            cols = list(cur.columns)
+            return rel.SideResult(cols, [[cur._cols[c][i] for c in cols] for i in range(cur._n)], ordered=False)
+        except Unmodelled as u:
+            return rel.SideResult(unmodelled=str(u))
+        except Exception as e:
+            return rel.SideResult(exc=f"{type(e).__name__}: {str(e)[:200]}")
+
+    def real(self, frames):
+        try:
+            cur = None
+            for tn, ops in self.step_ops:
+                dm = {k: v.copy() for k, v in frames.items()}
+                if cur is not None:
+                    dm[tn] = cur
+                with warnings.catch_warnings():
+                    warnings.simplefilter("ignore")
+                    cur = ops.eval(dm)
+            return rel._frame_to_rows(cur), None
+        except Exception as e:
+            return None, f"{type(e).__name__}: {str(e)[:200]}"
+
+    def describe(self):
+        return "pandas step-by-step: " + self.base + " | " + " | ".join(self.steps)
+
+
 class SQLSide(Side):
     def __init__(self, src, dialect="sqlite", options=None, allow_extend_merges=None, inmap=None, outmap=None):
         self.src, self.dialect, self.options, self.aem = src, dialect, options, allow_extend_merges
@@ -221,6 +276,8 @@ def make_side(d):
         return PandasSide(d["src"], d.get("inmap"), d.get("outmap"))
     if k == "sql":
         return SQLSide(d["src"], d.get("dialect", "sqlite"), d.get("options"), d.get("allow_extend_merges"), d.get("inmap"), d.get("outmap"))
+    if k == "pandas_steps":
+        return PandasStepsSide(d["base"], d["steps"], d["base_table"])
     if k == "rawsql":
         return RawSQLSide(d["sql"], d.get("dialect", "sqlite"))
     if k == "fn":
